@@ -365,6 +365,10 @@ def compare(helper, ref, got, gated):
     if isinstance(ref, tuple) and ref[0] == "pause":
         ok, why = pause_ok(ref[1], got)
         return None if ok else {"kind": "timed pause not conserved", "why": why, "wrote": got[:8], "n": ref[1]}
+    if got != ref and isinstance(ref, list) and len(got) == len(ref) and \
+            all(g.split(",")[0].upper() == r.split(",")[0].upper() and g.split(",")[1:] == r.split(",")[1:]
+                for g, r in zip(got, ref)):
+        return None     # EBB command names are not case sensitive ("v" is the V command); the arguments are exact
     if got != ref:
         kind = "command text differs from the documented form"
         if len(got) == len(ref) and all(g.split(",")[0] == r.split(",")[0] for g, r in zip(got, ref)):
@@ -477,6 +481,39 @@ def slow_link(ctx, rng, leg_ref, e3_ref):
     diff = compare(name, ref_fn(args), got, name in GATED_LEGACY)
     for p in problems + ([diff] if diff else []):
         ctx.violation(p["kind"], dict({"layer": "legacy", "helper": name, "args": pos, "link_round_trip_s": latency}, **p))
+
+
+def marathon(ctx, rng, e3_ref):
+    """ONE EBB3 object on which every pen / move helper is used tens of thousands of times (one plot
+    session of a stipple drawing): the text on the wire is compared with the reference at every call."""
+    world = ebb3mon.World(board_kwargs={"version": "3.0.2"})
+    world.attach()
+    n = ctx.budget(66_000, 140_000)
+    names = ["pen_lower", "pen_raise", "xy_move", "dio_b_set"]
+    prepared = []
+    for name in names:
+        kind, ref_fn = e3_ref[name]
+        prepared.append((name, ref_fn, [gen_args(rng, kind)[:2] for _ in range(12)]))
+    prior = (world.board.en1, world.board.en2, world.board.mode)
+    for i in range(n):
+        for name, ref_fn, pool in prepared:
+            args, pos = pool[i % len(pool)]
+            mark = world.log.mark()
+            top, _ = ebb3mon.call_step(world, {"m": name, "a": pos})
+            problems = []
+            got = wire_lines(ctx, world.log, mark, problems)
+            diff = compare(name, ref_fn(args, prior), got, False)
+            raised = top is None or "raised" in top
+            if raised or diff or problems:
+                ctx.violation((diff or {}).get("kind", "helper raised" if raised else problems[0]["kind"]), {
+                    "layer": "ebb3", "helper": name, "args": pos, "call_number_on_this_object": i + 1,
+                    "wrote": got, "documented": ref_fn(args, prior),
+                    "exception": repr(top.get("raised")) if top and "raised" in top else None})
+                return
+        if i % 4000 == 3999:
+            world.log.events.clear()
+            world.mon.done = []
+    ctx.case(["one object, every pen / move helper tens of thousands of times"], ("marathon", n))
 
 
 def keywordize(fn, pos, skip_first=False):
@@ -667,6 +704,8 @@ def run(ctx):
         if i % 50 == 0:
             run_noport(ctx, rng, leg_ref, e3_ref)
         run_sessions(ctx, rng, leg_ref, e3_ref)
+    marathon(ctx, rng, e3_ref)
+    ctx.need("one object, every pen / move helper tens of thousands of times", 1)
     for _ in range(ctx.budget(25, 60)):
         slow_link(ctx, rng, leg_ref, e3_ref)
     ctx.need("slow link (every reply takes 12-30 ms of real time)", 20)
